@@ -27,6 +27,10 @@
 //!   chart=<b> map=<b> frz=<b> priv=<n|-> ma=<n|-> zoom=<n> fc=<id:count,…|-> cols=<columns>
 //!   snap=<shape of the displayed snapshot> q=<0|1|2>
 //!
+//! Corpus lines (replayed first, one case per line): `<ntraces> <max_flows> <op>,<op>,…` with
+//! op = `f<w>x<h>` | `k:<command>` | `r<trace>:<slot>.<slot>…` (slot = A | F | N | S | C<j>, ttl = position)
+//! | `c<trace>` (tracer cleared) | `e<trace>` (tracer error).
+//!
 //! Oracles (implementation-vs-oracle, independent of the Lean model):
 //!   c17-panic     any panic of a frame or key handler (op sequence shrunk by replay),
 //!   c17-invalid   at a frame, a selection that does not refer to an entry of the displayed data
@@ -36,7 +40,7 @@
 //!                 ttl <= privacy_max_ttl, or the source address / source hostname while privacy is on,
 //!   c18-missing   (directed sweep only) a visible responding hop is not shown in the wide hop table.
 //!
-//! Markers: hop (ttl, j) answers from `1TT.2JJ.1KK.199` (IPv4) or `2001:db8:1TT:2JJ::c7` (IPv6);
+//! Markers: hop (ttl < 100, j) answers from `1TT.2JJ.1KK.199` (IPv4) or `2001:db8:1TT:2JJ::c7` (IPv6);
 //! the binary interposes `getnameinfo`, so that the System resolver of trippy-dns maps those
 //! addresses to `hopTTaJJ.tvmark.test` and the source address to `srchost.tvmark.test` without any
 //! network access.  AS information (needs a DNS TXT query to a real name server) and GeoIP text
@@ -290,7 +294,15 @@ fn hop_addr(v6: bool, trace: usize, ttl: u8, j: u8) -> IpAddr {
     if j == 255 {
         return target_addr(v6, trace);
     }
-    let t = ttl % 100;
+    if ttl >= 100 {
+        // beyond the marker range: plain addresses that are never searched for
+        return if v6 {
+            IpAddr::V6(Ipv6Addr::new(0xfd00, 0x50, 0, 0, 0, trace as u16, u16::from(ttl), u16::from(j)))
+        } else {
+            IpAddr::V4(Ipv4Addr::new(10, 50 + trace as u8, ttl, j))
+        };
+    }
+    let t = ttl;
     let j = j % 56;
     if v6 {
         let g = |hi: u16, d: u8| hi * 0x100 + u16::from(d / 10) * 0x10 + u16::from(d % 10);
@@ -629,8 +641,8 @@ impl Live {
                     sent: p.sent,
                 }),
                 Slot::Complete { j, rtt, nat, ext } => {
-                    if *j != 255 {
-                        self.marks.insert((*ttl % 100, *j % 56));
+                    if *j != 255 && *ttl < 100 {
+                        self.marks.insert((*ttl, *j % 56));
                     }
                     let extensions = match ext {
                         1 => Some(Extensions {
